@@ -49,7 +49,7 @@ CHECK = {
             "non-trivial = not (axis-only rotation) and not (double normaliser input already inside (0.01, pi-0.01)) and "
             "not (zero planar angle) and not (generic double Cartesian point well away from the poles), i.e. outside what "
             "the unit tests sample",
-    "level_text": "exploration: the real conversion functions are executed on 4e5 (quick) / 4e7 (thorough) generated inputs "
+    "level_text": "exploration: the real conversion functions are executed on 4e5 (quick) / 6e7 (thorough) generated inputs "
                   "concentrated on the wrap-around points, the pitch / R(2,0) limits, the interval ends of the normalisers, "
                   "the poles and the axes, in float and double; every result is compared with the long-double definition "
                   "(Rz*Ry*Rx, Hamilton product, remainder modulo 2*pi) or with the input of the round trip under a "
@@ -58,9 +58,12 @@ CHECK = {
     "technique": "runtime monitoring: sanitizer build + long-double reference oracle + round-trip monitors over generated inputs",
     "assumptions": [
         "long double (x87 80-bit) Rz*Ry*Rx / qz*qy*qx is the reference for 'the Z-Y-X rotation'",
-        "'to rounding' = K*eps(Scalar)*conditioning: K=16 builders/properness/coordinates, 48/cos(pitch) extracted angles, "
-        "64/cos(pitch) rotation->angles->rotation, 32 normaliser congruence and the 2D pair; spherical round trip "
-        "r*(16 eps + min(2D/sin(el), sqrt(2D))), D=32 eps (acos conditioning, about 1e-7*r next to the poles in double)",
+        "'to rounding' = K*eps(Scalar)*conditioning: K=16 quaternion coefficients, SmartRotation3D::R entries and the well "
+        "conditioned part of the coordinate round trips; 48 entries of a matrix obtained through the quaternion and 96 its "
+        "orthonormality/determinant defect (a quaternion product with squared norm 1+e, |e|<=16 eps, gives R+e(R-I): distance "
+        "<= 2 sqrt2 |e|, ||MM^T-I|| <= 4 sqrt2 |e|); 48/cos(pitch) extracted angles, 64/cos(pitch) rotation->angles->rotation; "
+        "32 normaliser congruence and the 2D pair; spherical round trip r*(16 eps + min(2D/sin(el), sqrt(2D))), D=32 eps "
+        "(conditioning of the acos-based elevation: about 1e-7*r next to the polar axis in double, 4e-3*r in float)",
         "normaliser intervals are closed ([0,2pi], [-pi,pi]); a float result may be the float nearest to the end point "
         "(one float ulp above it)",
         "a quaternion input is in the domain when the rotation it denotes has |R(2,0)| <= 1-1e-6 (same limit as for "
